@@ -324,6 +324,9 @@ class ANF:
         if isinstance(s, ast.If):
             t = self.eval(s.test, env, cond, loops)
             tv = truth(t)
+            # which way a test goes under the propagated constants (None = both), by statement identity
+            ift = self.res.__dict__.setdefault("if_truth", {})
+            ift[id(s)] = tv if id(s) not in ift or ift[id(s)] == tv else None
             if tv is True:
                 return self.block(s.body, env, cond, loops)
             if tv is False:
